@@ -33,6 +33,29 @@ MOLS = {
 }
 
 
+def _generic_position(table):
+    """Every fixture molecule is moved by one fixed rigid motion into generic position: no atom at the origin or on a
+    coordinate axis / plane, no two Cartesian components of any atom or bond equal.  Axis-aligned diatomics and atoms at
+    the origin hide swapped Cartesian components and dropped atom offsets (seeded change C05_e: dy computed from the x
+    coordinate of the atom was invisible for every molecule with x == y on all atoms)."""
+    a, b, c = 0.61, 1.07, 2.23
+    rz = lambda x: np.array([[np.cos(x), -np.sin(x), 0], [np.sin(x), np.cos(x), 0], [0, 0, 1]])
+    ry = lambda x: np.array([[np.cos(x), 0, np.sin(x)], [0, 1, 0], [-np.sin(x), 0, np.cos(x)]])
+    R = rz(a) @ ry(b) @ rz(c)
+    t = np.array([0.17, -0.29, 0.41])
+    for name, spec in table.items():
+        out = []
+        for part in spec["atom"].split(";"):
+            sym, x, y, z = part.split()
+            v = R @ np.array([float(x), float(y), float(z)]) + t
+            out.append("%s %.12f %.12f %.12f" % (sym, v[0], v[1], v[2]))
+        spec["atom_axis_aligned"] = spec["atom"]
+        spec["atom"] = "; ".join(out)
+
+
+_generic_position(MOLS)
+
+
 def make_mol(name, atom=None, unit="Angstrom"):
     from pyscf import gto
 
@@ -161,22 +184,39 @@ def sdmx_settings(kind):
     raise ValueError(kind)
 
 
+def nlof_settings(kind):
+    """Fractional-Laplacian (orbital-dependent) feature settings: scalar, l=1 and F^d / F^dd groups."""
+    from ciderpress.dft import settings as S
+
+    if kind == "FL":
+        return S.FracLaplSettings([-0.5, 0.5, 1.0], 3, 2, [(0, 0), (-1, 1), (0, 1)])
+    if kind == "FL0":
+        return S.FracLaplSettings([0.25, -1.0], 2, 0, [])
+    if kind == "FLd":
+        return S.FracLaplSettings([-0.5, 0.5], 2, 1, [(-1, 0)], nd1=2, ld_dots=[(0, 1), (-1, 0)], ndd=1)
+    if kind == "FLd2":  # more l=1 vectors than F^d vectors
+        return S.FracLaplSettings([0.25, -0.5, 1.0], 1, 3, [(2, 1)], nd1=1, ld_dots=[(0, 0), (-1, 0)], ndd=1)
+    raise ValueError(kind)
+
+
 def feature_settings(family, slmode="npa", rho_mult="one", normalize=True):
     """family: 'SL', 'VJ', 'VI', 'VIJ', 'VK', 'SDMX', 'SDMX1', ..., or 'VIJ+SDMX'."""
     from ciderpress.dft import settings as S
 
     sl = S.SemilocalSettings(slmode)
-    nldf = sdmx = None
+    nldf = sdmx = nlof = None
     for part in family.split("+"):
         if part == "SL":
             continue
-        if part.startswith("V"):
+        if part.startswith("FL"):
+            nlof = nlof_settings(part)
+        elif part.startswith("V"):
             nldf = nldf_settings(part, sl.level, rho_mult)
         elif part.startswith("S"):
             sdmx = sdmx_settings(part)
         else:
             raise ValueError(part)
-    st = S.FeatureSettings(sl_settings=sl, nldf_settings=nldf, sdmx_settings=sdmx)
+    st = S.FeatureSettings(sl_settings=sl, nldf_settings=nldf, nlof_settings=nlof, sdmx_settings=sdmx)
     if normalize:
         try:
             st.assign_reasonable_normalizer()
